@@ -9,8 +9,16 @@ Import ListNotations.
 Fixpoint group_ids (fs : list frame) : list nat :=
   match fs with
   | [] => []
-  | FGroup i _ :: r => i :: group_ids r
+  | FGroup _ i _ :: r => i :: group_ids r
   | _ :: r => group_ids r
+  end.
+
+(* the kinds of the open brackets, innermost first *)
+Fixpoint group_kinds (fs : list frame) : list bkind :=
+  match fs with
+  | [] => []
+  | FGroup b _ _ :: r => b :: group_kinds r
+  | _ :: r => group_kinds r
   end.
 
 Definition cg_of (n : nat) : option nat := match n with O => None | S k => Some k end.
@@ -43,15 +51,37 @@ Proof.
     + rewrite (IH _ H). destruct f; try reflexivity. discriminate E.
 Qed.
 
-Lemma close_group_ids : forall fs t fs' t', close_group fs t = Some (fs', t') ->
+Lemma close_group_ids b : forall fs t fs' t', close_group b fs t = Some (fs', t') ->
   group_ids fs = nid t' :: group_ids fs'.
 Proof.
   induction fs as [|f r IH]; intros t fs' t' H; [discriminate|].
-  destruct f as [i d k l|i d k|i k]; cbn [close_group group_ids] in *.
+  destruct f as [i d k l|i d k|b0 i k]; cbn [close_group group_ids] in *.
   - eapply IH; eauto.
   - eapply IH; eauto.
-  - injection H as <- <-. reflexivity.
+  - destruct (bkind_eqb b0 b); [|discriminate H]. injection H as <- <-. reflexivity.
 Qed.
+
+Lemma pop_group_kinds d fs t fs' t' : pop d fs t = (fs', t') -> group_kinds fs' = group_kinds fs.
+Proof.
+  revert t. induction fs as [|f r IH]; intros t H; cbn [pop] in H.
+  - injection H as <- <-. reflexivity.
+  - destruct (stays_below d f) eqn:E.
+    + injection H as <- <-. reflexivity.
+    + rewrite (IH _ H). destruct f; try reflexivity. discriminate E.
+Qed.
+
+Lemma close_group_kinds b : forall fs t bs, group_kinds fs = b :: bs ->
+  exists fs' t', close_group b fs t = Some (fs', t') /\ group_kinds fs' = bs.
+Proof.
+  induction fs as [|f r IH]; intros t bs H; [discriminate H|].
+  destruct f as [i d k l|i d k|b0 i k]; cbn [close_group group_kinds] in *.
+  - apply IH. exact H.
+  - apply IH. exact H.
+  - injection H as -> <-. destruct b; cbn [bkind_eqb]; eexists _, _; split; reflexivity.
+Qed.
+
+Lemma group_kinds_nil fs : group_kinds fs = [] -> group_ids fs = [].
+Proof. induction fs as [|f r IH]; [reflexivity|]. destruct f; simpl; auto. discriminate. Qed.
 
 Lemma removelast_pair_snoc {A} (l : list A) x : removelast_pair (l ++ [x]) = Some (l, x).
 Proof.
@@ -105,7 +135,7 @@ Lemma gcompl_root st fs t sp : gcompl st fs t sp ->
 Proof.
   intros G. destruct (gc_struct _ _ _ _ G) as [[_ D _ O] Cl _ _ _].
   destruct (closed_operand_root _ _ _ D Cl) as (ln & Hln & Hc). exists ln. split; [exact Hln|]. split; [exact Hc|].
-  destruct t as [i d k|i d k a|i d k a|i d k l r|i k a]; simpl in Cl; try contradiction;
+  destruct t as [i d k|i d k a|i d k a|i d k l r|b i k a]; simpl in Cl; try contradiction;
     simpl in D; destruct D as (n & Hn & A); cbn [nid] in Hln; rewrite Hn in Hln; injection Hln as <-.
   - destruct A as (_ & _ & _ & _ & _ & -> & _). reflexivity.
   - destruct A as (_ & _ & _ & _ & -> & _). reflexivity.
@@ -125,7 +155,7 @@ Proof.
   destruct fs as [|f r]; [left; reflexivity|right].
   simpl in Sp. destruct Sp as [S1 _]. destruct (frame_node_walk _ _ _ _ S1) as (nf & Hnf & Hdf & _).
   exists (frame_id f), nf. split; [reflexivity|]. split; [exact Hnf|]. rewrite Hdf.
-  destruct f as [i d k l|i d k|i k]; [| |reflexivity];
+  destruct f as [i d k l|i d k|b i k]; [| |destruct b; reflexivity];
     destruct (frame_def_facts _ (FO _ (or_introl eq_refl) eq_refl)) as (their & q & _ & _ & _ & Hse & _); exact Hse.
 Qed.
 
@@ -224,11 +254,11 @@ Proof.
     destruct (calm_facts _ Hcalm) as (Hse & _).
     destruct CS as [[Sp D F O] Cl _ _ _].
     apply (slc_operand st _ (nid t) ln Hll Hln Hse).
-    destruct t as [j d k|j d k a|j d k a|j d k l r|j k a]; simpl in Cl; try contradiction;
+    destruct t as [j d k|j d k a|j d k a|j d k l r|b j k a]; simpl in Cl; try contradiction;
       simpl in D; destruct D as (n & Hn & A); cbn [nid] in Hln; rewrite Hn in Hln; injection Hln as <-.
     - left. destruct A as (_ & _ & A3 & _). apply prio10_value_like. exact A3.
     - right. left. apply A.
-    - right. right. destruct A as (_ & A2 & _). split; [exact A2|]. cbn [nid].
+    - right. right. destruct A as (_ & A2 & _). exists b. split; [exact A2|]. cbn [nid].
       destruct (first_group fs) as [g|] eqn:Eg; [|reflexivity]. apply opt_nat_eqb_some_neq.
       pose proof (frames_have_lt _ _ _ F (first_group_has _ _ Eg)) as R. simpl in R. lia. }
   rewrite Hslc. cbn [bind]. rewrite Hll. eexists. split; [reflexivity|]. split; [|reflexivity].
@@ -251,16 +281,16 @@ Proof.
     simpl in Sp. destruct Sp as [S1 _].
     destruct (frame_node_walk _ _ _ _ S1) as (nf & Hnf & Hdf & _ & _ & Hsf).
     apply (slc_frame st _ (frame_id f) nf Hll Hnf Hcfl); rewrite ?Hdf; try exact Hsf.
-    - destruct f as [j d k l|j d k|j k]; [| |reflexivity];
+    - destruct f as [j d k l|j d k|b j k]; [| |destruct b; reflexivity];
         apply (frame_def_facts2 _ (FO _ (or_introl eq_refl) eq_refl)).
-    - destruct f as [j d k l|j d k|j k]; [| |reflexivity];
+    - destruct f as [j d k l|j d k|b j k]; [| |destruct b; reflexivity];
         apply (frame_def_facts2 _ (FO _ (or_introl eq_refl) eq_refl)).
-    - destruct f as [j d k l|j d k|j k].
+    - destruct f as [j d k l|j d k|b j k].
       + destruct (frame_def_facts2 _ (FO _ (or_introl eq_refl) eq_refl)) as (_ & V2 & V3 & _).
         cbn [frame_def] in V2, V3 |- *. rewrite V2, V3. reflexivity.
       + destruct (frame_def_facts2 _ (FO _ (or_introl eq_refl) eq_refl)) as (_ & V2 & V3 & _).
         cbn [frame_def] in V2, V3 |- *. rewrite V2, V3. reflexivity.
-      + cbn [frame_def frame_id first_group opt_nat_eqb]. rewrite Nat.eqb_refl. reflexivity. }
+      + cbn [frame_def frame_id first_group opt_nat_eqb]. rewrite Nat.eqb_refl. rewrite andb_false_r. reflexivity. }
   rewrite Hslc. cbn [bind].
   assert (Hl : match last_left st with
                | Some k => Some k
@@ -321,17 +351,17 @@ Proof.
 Qed.
 
 (* an opening bracket where an operand is expected *)
-Theorem gstep_open ntoks i st fs sp :
+Theorem gstep_open ntoks i st fs sp b :
   gpend st fs sp -> i + 1 < ntoks ->
-  exists st', step ntoks i TT_StartGroup st = Ok st' /\
-              gpend st' (FGroup (length (nodes st)) i :: fs) false /\
+  exists st', step ntoks i (open_tok b) st = Ok st' /\
+              gpend st' (FGroup b (length (nodes st)) i :: fs) false /\
               length (nodes st') = S (length (nodes st)).
 Proof.
   intros G Hi. pose proof (gpend_adj _ _ _ G) as Hadj.
   destruct G as [PS Hll Hnp Hgr Hnll PM].
   destruct (forb_pend_start sp st S_StartGrouping PM (or_intror (or_intror eq_refl))) as [Hforb Hsep].
   destruct PM as (Hcfl & _).
-  rewrite (step_open_unfold ntoks i st _ (groups_under _ _ Hgr) Hnll Hcfl Hadj Hforb Hsep).
+  rewrite (step_open_unfold ntoks i st _ b (groups_under _ _ Hgr) Hnll Hcfl Hadj Hforb Hsep).
   destruct (Nat.leb_spec ntoks (i + 1)) as [Hle|_]; [lia|].
   replace (length (nodes st) + 1) with (S (length (nodes st))) by lia.
   eexists. split; [reflexivity|]. split; [|cbn [nodes]; rewrite app_length; simpl; lia].
@@ -403,22 +433,22 @@ Proof.
 Qed.
 
 (* a closing bracket after a completed operand *)
-Theorem gstep_close ntoks i st fs t sp fs' t' :
-  gcompl st fs t sp -> close_group fs t = Some (fs', t') ->
-  exists st', step ntoks i TT_EndGroup st = Ok st' /\ gcompl st' fs' t' false /\ nodes st' = nodes st.
+Theorem gstep_close ntoks i st fs t sp b fs' t' :
+  gcompl st fs t sp -> close_group b fs t = Some (fs', t') ->
+  exists st', step ntoks i (close_tok b) st = Ok st' /\ gcompl st' fs' t' false /\ nodes st' = nodes st.
 Proof.
   intros G Hcl. pose proof (gcompl_adj _ _ _ _ G) as Hadj.
   destruct (gcompl_root _ _ _ _ G) as (ln & Hln & Hcalm & Hright).
   destruct G as [CS Hll Hgr Hnll CM].
   destruct (forb_compl_op sp st S_EndGrouping CM (or_intror (or_intror eq_refl))) as [Hforb Hsep].
-  pose proof (close_on_complete _ _ _ _ _ CS Hcl) as CS'.
-  pose proof (close_group_ids _ _ _ _ Hcl) as Hids.
-  destruct (close_group_shape _ _ _ _ Hcl) as (g & k & a & -> & Hfg). cbn [nid] in Hids.
+  pose proof (close_on_complete _ _ _ _ _ _ CS Hcl) as CS'.
+  pose proof (close_group_ids _ _ _ _ _ Hcl) as Hids.
+  destruct (close_group_shape _ _ _ _ _ Hcl) as (g & k & a & -> & Hfg). cbn [nid] in Hids.
   destruct Hgr as [Hgs Hcg].
   assert (Hrl : removelast_pair (group_stack st) = Some (gstack (group_ids fs'), (g, false))).
   { rewrite Hgs, Hids. unfold gstack. cbn [map rev]. apply removelast_pair_snoc. }
   destruct (lk_den _ _ _ (cs_linked _ _ _ CS')) as (sgn & Hsgn & _ & Hsd & _).
-  rewrite (step_close_unfold ntoks i st _ _ g false sgn (nid t) ln (groups_under _ _ (conj Hgs Hcg)) Hadj Hforb Hsep
+  rewrite (step_close_unfold ntoks i st _ b _ g false sgn (nid t) ln (groups_under _ _ (conj Hgs Hcg)) Hadj Hforb Hsep
              Hrl Hsgn Hsd Hll Hln Hcalm Hright).
   eexists. split; [reflexivity|]. split; [|reflexivity].
   constructor; cbn [nodes last_left next_last_left]; [exact CS'|reflexivity| |reflexivity|].
@@ -509,11 +539,11 @@ Proof.
 Qed.
 
 (* an opening bracket after whitespace after a completed operand: list node, then the bracket *)
-Theorem gstep_open_list ntoks i st fs t :
+Theorem gstep_open_list ntoks i st fs t b :
   gcompl st fs t true ->
   exists st' fs' t',
-    pop D_List fs t = (fs', t') /\ step ntoks i TT_StartGroup st = Ok st' /\
-    gpend st' (FGroup (S (length (nodes st))) i :: FBin (length (nodes st)) D_List None t' :: fs') false /\
+    pop D_List fs t = (fs', t') /\ step ntoks i (open_tok b) st = Ok st' /\
+    gpend st' (FGroup b (S (length (nodes st))) i :: FBin (length (nodes st)) D_List None t' :: fs') false /\
     length (nodes st') = S (S (length (nodes st))).
 Proof.
   intros G. pose proof (gcompl_adj _ _ _ _ G) as Hadj.
@@ -521,7 +551,7 @@ Proof.
   destruct (pop D_List fs t) as [fs' t'] eqn:Hpop.
   destruct (forb_compl_list st S_StartGrouping CM (or_intror (or_intror eq_refl))) as [Hforb Hsep].
   destruct CM as [_ (Hcfl & _)].
-  rewrite (step_open_list_unfold ntoks i st _ (groups_under _ _ Hgr) Hcfl Hadj Hforb Hsep).
+  rewrite (step_open_list_unfold ntoks i st _ b (groups_under _ _ Hgr) Hcfl Hadj Hforb Hsep).
   destruct (make_list_node_complete st fs t fs' t' CS Hll Hpop) as (nsl & Hml & Hlen & PS).
   rewrite Hml. cbn [bind].
   eexists. exists fs', t'. split; [reflexivity|]. split; [reflexivity|].
